@@ -2,7 +2,7 @@
 from .. import container
 from ..core import Sub, build_machine, run_history
 
-PROP = {'id': 'C11', 'level': 'exploration', 'technique': 'Hypothesis RuleBasedStateMachine over histories that include repeated adds of a present type, adds into a full table, remove/replace of absent types and setter assignment in every state; outcome oracle (success / ValueError) from the model, plus accessor agreement (has_*, len, get_block by type and index, [] , blocks, convenience getters) against an independent parse at every intermediate state', 'level_text': 'Exploration of histories with an outcome model for every call and an accessor sweep after every step: at most one entry per type in the parsed file, each presence predicate equals membership, len equals the number of live entries, lookups of present types return a block of the right class whose re-encoding equals the stored bytes, lookups of absent types raise, index bounds raise IndexError, blocks lists the table slot by slot.', 'level_note': "Trusted: reftdf.parse_container and the outcome model in vf/container.py. Any deviation of an operation's outcome from the model is reported here (and only here); the other container checks abandon such histories.", 'design_ref': 'DESIGN.md section 4, C11', 'rule': 'case = {init image, ops}; non-trivial = the history contains a repeated add of a present type, or uses a setter both when the type is present and when it is absent; distinct by sha1 of the history', 'assumptions': []}
+PROP = {'id': 'C11', 'level': 'exploration', 'technique': 'Hypothesis RuleBasedStateMachine over histories that include repeated adds of a present type, adds into a full table, remove/replace of absent types and setter assignment in every state; outcome oracle (success / ValueError) from the model, plus accessor agreement (has_*, len, get_block by type and index, [] , blocks, convenience getters) against an independent parse at every intermediate state; enumerated scripts (every table length x fill level, one-ulp replacements); the block looked up after a replace / set is the assigned one bit for bit', 'level_text': 'Exploration of histories with an outcome model for every call and an accessor sweep after every step: at most one entry per type in the parsed file, each presence predicate equals membership, len equals the number of live entries, lookups of present types return a block of the right class whose re-encoding equals the stored bytes, lookups of absent types raise, index bounds raise IndexError, blocks lists the table slot by slot.', 'level_note': "Trusted: reftdf.parse_container and the outcome model in vf/container.py. Any deviation of an operation's outcome from the model is reported here (and only here); the other container checks abandon such histories.", 'design_ref': 'DESIGN.md section 4, C11', 'rule': 'case = {init image, ops}; non-trivial = the history contains a repeated add of a present type, or uses a setter both when the type is present and when it is absent; distinct by sha1 of the history', 'assumptions': []}
 
 GROUPS = {"C11"}
 REFUSALS = True
